@@ -457,6 +457,92 @@ func runC09(c *Ctx) {
 		c.Expect("C09-R4", "success shortcuts in uploadBlob", n, 1)
 	}
 
+	c.Rule("C09-R7", "the default push path reports a layer as uploaded only if the registry accepted it: in blobUpload.Run every store to b.err takes the error variable of the request that just failed / of the final commit request (same object, no shadowing), b.done = true is set only after the commit loop together with that store, and Wait returns b.err once done")
+	if f := c.Fn("C09-R7", "server", "blobUpload.Run"); f != nil {
+		sinfo := c.P.Pkgs["server"].TypesInfo
+		g := c.G(f)
+		fErr := c.P.LookupField("server", "blobUpload", "err")
+		fDone := c.P.LookupField("server", "blobUpload", "done")
+		var commits []core.Hit
+		for _, h := range g.FindCalls("server.makeRequestWithRetry") {
+			if m, ok := core.ConstString(sinfo, h.Node.(*ast.CallExpr).Args[1]); ok && m == "PUT" {
+				commits = append(commits, h)
+			}
+		}
+		c.Expect("C09-R7", "commit requests in blobUpload.Run", len(commits), 1)
+		nSt := 0
+		for _, st := range g.Find(func(n ast.Node) bool {
+			a, ok := n.(*ast.AssignStmt)
+			return ok && len(a.Lhs) == 1 && core.FieldVar(sinfo, a.Lhs[0]) == fErr
+		}) {
+			nSt++
+			a := st.Node.(*ast.AssignStmt)
+			id, isID := ast.Unparen(a.Rhs[0]).(*ast.Ident)
+			if !isID {
+				c.Check("C09-R7", f.Key()+" store:blobUpload.err#"+itoa(nSt), c.Pos(a), false, "b.err must be assigned an error variable")
+				continue
+			}
+			obj := sinfo.Uses[id]
+			// is this the final store (followed by b.done = true in the same block)?
+			final := false
+			for _, n := range g.Nodes(st.Loc.B) {
+				if a2, ok := n.(*ast.AssignStmt); ok && len(a2.Lhs) == 1 && core.FieldVar(sinfo, a2.Lhs[0]) == fDone {
+					final = true
+				}
+			}
+			ok := false
+			if final {
+				for _, cm := range commits {
+					if ev := core.ResultVar(sinfo, cm.Top, cm.Node.(*ast.CallExpr), 1); ev != nil && ev == obj {
+						ok = true
+					}
+				}
+				c.Check("C09-R7", f.Key()+" final b.err is the commit request's error", c.Pos(a), ok, "the error stored before b.done = true must be the variable that receives the result of the commit request (a `:=` inside the retry loop shadows it and a refused commit is reported as success)")
+			} else {
+				// stored on the non-nil edge of that same variable
+				if isNil, known := g.ObjNilFact(st.Loc, obj); known && !isNil {
+					ok = true
+				}
+				c.Check("C09-R7", f.Key()+" store:blobUpload.err#"+itoa(nSt)+" on its failure edge", c.Pos(a), ok, "an early b.err store must be on the non-nil edge of the stored variable")
+			}
+		}
+		c.Expect("C09-R7", "stores to blobUpload.err", nSt, 4)
+		// done = true only once, after the commit loop
+		nDone := 0
+		for _, st := range g.Find(func(n ast.Node) bool {
+			a, ok := n.(*ast.AssignStmt)
+			return ok && len(a.Lhs) == 1 && core.FieldVar(sinfo, a.Lhs[0]) == fDone
+		}) {
+			nDone++
+			ok := len(commits) == 1 && g.Reaches(commits[0].Loc, st.Loc) && !g.Reaches(st.Loc, commits[0].Loc)
+			c.Check("C09-R7", f.Key()+" done only after the commit request", c.Pos(st.Node), ok, "")
+		}
+		c.Expect("C09-R7", "stores to blobUpload.done in Run", nDone, 1)
+	}
+	if f := c.Fn("C09-R7", "server", "blobUpload.Wait"); f != nil {
+		sinfo := c.P.Pkgs["server"].TypesInfo
+		g := c.G(f)
+		fErr := c.P.LookupField("server", "blobUpload", "err")
+		ok := false
+		for _, ex := range g.Returns() {
+			if ex.Return != nil && len(ex.Return.Results) == 1 && core.FieldVar(sinfo, ex.Return.Results[0]) == fErr {
+				ok = true
+			}
+		}
+		c.Check("C09-R7", f.Key()+" returns the recorded error", c.Pos(f.Decl), ok, "Wait must return b.err")
+	}
+	if f := c.Fn("C09-R7", "server", "uploadBlob"); f != nil {
+		sinfo := c.P.Pkgs["server"].TypesInfo
+		g := c.G(f)
+		ok := false
+		for _, ex := range g.Returns() {
+			if ex.Return != nil && len(core.CallsTo(sinfo, ex.Return, false, "server.blobUpload.Wait")) == 1 {
+				ok = true
+			}
+		}
+		c.Check("C09-R7", f.Key()+" returns the upload's result", c.Pos(f.Decl), ok, "uploadBlob must return upload.Wait(...)")
+	}
+
 	// ------------------------------------------------------------ R5 offset writers on size-trusted paths
 	c.Rule("C09-R5", "a final cache path whose presence at the expected size is trusted (Pull's c.Get shortcut, Chunked's pre-validated branch, copyNamedFile) must only be filled sequentially from offset 0 by a hash-checked writer: no offset writers on a final blob path")
 	binfo := c.P.Pkgs[blobPkg].TypesInfo
